@@ -64,6 +64,7 @@ fn obj(items: Vec<(&str, String)>) -> String {
 struct Cx<'tcx> {
     tcx: TyCtxt<'tcx>,
     root: String,
+    cur_body: std::cell::Cell<Option<&'tcx Body<'tcx>>>,
 }
 
 impl<'tcx> Cx<'tcx> {
@@ -349,7 +350,18 @@ impl<'tcx> Cx<'tcx> {
                 ("op", esc(&format!("{:?}", op))),
                 ("o", self.operand(o, owner)),
             ]),
-            Rvalue::Discriminant(p) => obj(vec![("k", esc("discr")), ("p", self.place(p))]),
+            Rvalue::Discriminant(p) => {
+                let mut items = vec![("k", esc("discr")), ("p", self.place(p))];
+                if let Some(b) = self.cur_body.get() {
+                    let pty = p.ty(&b.local_decls, self.tcx).ty;
+                    if let ty::Adt(adt, _) = pty.kind() {
+                        if adt.is_enum() {
+                            items.push(("nvar", format!("{}", adt.variants().len())));
+                        }
+                    }
+                }
+                obj(items)
+            }
             Rvalue::Aggregate(kind, ops) => {
                 let ops_s: Vec<String> = ops.iter().map(|o| self.operand(o, owner)).collect();
                 let mut items = vec![("k", esc("agg"))];
@@ -596,7 +608,8 @@ impl<'tcx> Cx<'tcx> {
         if !matches!(kind, DefKind::Fn | DefKind::AssocFn | DefKind::Closure) {
             return None;
         }
-        let body: &Body<'tcx> = tcx.optimized_mir(did.to_def_id());
+        let body: &'tcx Body<'tcx> = tcx.optimized_mir(did.to_def_id());
+        self.cur_body.set(Some(body));
         let def_span = tcx.def_span(did);
         let mut items: Vec<(&str, String)> = vec![];
         items.push(("id", esc(&self.path(did.to_def_id()))));
@@ -709,7 +722,7 @@ impl<'tcx> Cx<'tcx> {
 
 fn dump<'tcx>(tcx: TyCtxt<'tcx>) {
     let root = std::env::var("CBMIR_ROOT").unwrap_or_else(|_| "/repo".to_string());
-    let cx = Cx { tcx, root };
+    let cx = Cx { tcx, root, cur_body: std::cell::Cell::new(None) };
     let mut bodies = vec![];
     let mut keys: Vec<LocalDefId> = tcx.mir_keys(()).iter().copied().collect();
     keys.sort_by_key(|d| cx.path(d.to_def_id()));
